@@ -152,7 +152,7 @@ int disasm_6502(
     strcpy(instruction, "???");
     snprintf(temp, sizeof(temp), " 0x%02x", opcode);
     strcat(instruction, temp);
-    return 0;
+    return 1;
   }
 
   // set this to the number of bytes the operation took up
